@@ -558,4 +558,75 @@ func c04WindowProgs() []*c04Prog {
 	return out
 }
 
+// ---------------------------------------------------------------- windows of real preemption
+//
+// A handle on a directory lists it under the directory's mutex only (mem.File does not know
+// m.mu), so a namespace method is atomic for such listings only if it changes each directory
+// under ONE hold of that directory's mutex and related directories under simultaneous holds.
+// The cooperative scheduler never yields while a lock is held and cannot open these windows;
+// the programs below run under the real scheduler (stress mode, both tiers) and are sized so
+// that the windows are hit within a few hundred rounds:
+//   dir-children  Rename of a directory with many children ‖ listings through handles on it
+//                 opened beforehand: every listing shows all the children (base names do not
+//                 change) - renameDescendants used to re-register them one by one;
+//   two-parents   Rename of an entry from /d to /e ‖ a listing of /d and THEN a listing of /e:
+//                 the entry is in one of them - it used to be removed from /d and added to /e
+//                 under two separate holds of two mutexes.
+// Their histories go through the same linearizability search as all the others.
+type c04Preempt struct {
+	prog *c04Prog
+	reps int
+}
+
+func c04PreemptProgs(tier string) []c04Preempt {
+	k := 1
+	if tier == "thorough" {
+		k = 6
+	}
+	child := func(dir string, i int) string { return fmt.Sprintf("%s/c%03d", dir, i) }
+	var out []c04Preempt
+	// dir-children: /d with 200 files, 6 handles on /d, Rename(/d,/g) ‖ 6 listings
+	{
+		p := &c04Prog{Focus: "preempt-dir-children", MaxDistinct: 6}
+		p.Setup = append(p.Setup, oMkdir("/d", 0o755))
+		for i := 0; i < 200; i++ {
+			p.Setup = append(p.Setup, oCreate(1, child("/d", i)))
+		}
+		var ls []string
+		for i := 0; i < 6; i++ {
+			p.Setup = append(p.Setup, oOpen(200+i, "/d"))
+			ls = append(ls, hNames(200+i))
+		}
+		p.Threads = [][]string{{oRename("/d", "/g")}, ls}
+		out = append(out, c04Preempt{p, 150 * k})
+	}
+	// two-parents: the entry is a directory with 60 children (a long move) or a file (a short one,
+	// on a filesystem with 400 other entries: findDescendants scans the whole map)
+	for variant := 0; variant < 2; variant++ {
+		p := &c04Prog{Focus: "preempt-two-parents", MaxDistinct: 6}
+		p.Setup = append(p.Setup, oMkdir("/d", 0o755), oMkdir("/e", 0o755))
+		reps := 400 * k
+		if variant == 0 {
+			p.Setup = append(p.Setup, oMkdir("/d/x", 0o755))
+			for i := 0; i < 60; i++ {
+				p.Setup = append(p.Setup, oCreate(1, child("/d/x", i)))
+			}
+		} else {
+			p.Setup = append(p.Setup, oCreate(1, "/d/x"), oMkdir("/q", 0o755))
+			for i := 0; i < 400; i++ {
+				p.Setup = append(p.Setup, oCreate(1, child("/q", i)))
+			}
+			reps = 2500 * k
+		}
+		var ls []string
+		for i := 0; i < 8; i++ {
+			p.Setup = append(p.Setup, oOpen(200+2*i, "/d"), oOpen(201+2*i, "/e"))
+			ls = append(ls, hNames(200+2*i), hNames(201+2*i))
+		}
+		p.Threads = [][]string{{oRename("/d/x", "/e/x")}, ls}
+		out = append(out, c04Preempt{p, reps})
+	}
+	return out
+}
+
 var _ = fmt.Sprint
